@@ -137,6 +137,9 @@ type Disk struct {
 	Failed bool
 	Fails  int
 	Err    error // the error to fail with (default ErrInjected)
+	// Transient: only the one Write that crosses Limit fails (a destination that recovers,
+	// e.g. after EAGAIN or EINTR); later writes are accepted again.
+	Transient bool
 }
 
 func (d *Disk) err() error {
@@ -148,11 +151,11 @@ func (d *Disk) err() error {
 
 func (d *Disk) Write(p []byte) (int, error) {
 	d.Calls = append(d.Calls, len(p))
-	if d.Failed {
+	if d.Failed && !d.Transient {
 		d.Fails++
 		return 0, d.err()
 	}
-	if d.Limit < 0 || len(d.Stored)+len(p) <= d.Limit {
+	if d.Limit < 0 || len(d.Stored)+len(p) <= d.Limit || (d.Failed && d.Transient) {
 		d.Stored = append(d.Stored, p...)
 		return len(p), nil
 	}
